@@ -12,7 +12,7 @@ import copy
 from dsim import core, refmodels
 from dsim.core import Result, Trace, canon, plain, InjectedFault, StepBudgetExceeded
 from dsim.isolate import call_in_fork, ChildFailure
-from dsim.seams import SimClock, ClockSeam, SimSolver, FaultyValueOf, LogSeam, BinnerOpBudget, warm_up_solver
+from dsim.seams import SimClock, ClockSeam, SimSolver, FaultyValueOf, LogSeam, BinnerOpBudget, AsyncInterrupt, warm_up_solver
 
 ID = "C15"
 LEVEL = "exploration"
@@ -33,7 +33,8 @@ RULE = ("One run = one seeded history of 5..max_ops operations in one interprete
         "partitioning / packing / covering algorithm through prtpy.partition / prtpy.pack with any output type, or directly with a caller-owned "
         "bins-manager that is re-used; verbatim repeat of an earlier operation; the caller editing one of its containers, or an object an earlier "
         "call returned, between two calls; failed calls (natural refusals; valueof raising an ordinary error / KeyError / MemoryError / "
-        "KeyboardInterrupt anywhere, late, at its last or its first evaluation; simulated clock cut-off or an interrupt at a clock reading for "
+        "KeyboardInterrupt anywhere, late, at its last or its first evaluation; the user's interrupt arriving at an arbitrary executed line "
+        "of the library (sys.settrace line events); simulated clock cut-off or an interrupt at a clock reading for "
         "complete greedy / CBLDM; simulated solver status, exception, time-out or read-back noise for ILP; CKK generator abandoned, closed or "
         "thrown into after j yields); retries of failed calls with a changed size parameter; 'retry storm' histories. After every operation every "
         "container of the pool (and every option list handed over) is compared with its pristine copy, and the canonicalised outcome (value "
@@ -54,7 +55,7 @@ COMPONENTS = {
     "real": ["every algorithm in prtpy.partitioning / prtpy.packing / prtpy.covering via prtpy.partition / prtpy.pack", "all output types",
              "both bins-managers", "objectives", "python-mip + CBC (real solves in mode 'real')", "numpy"],
     "simulated": ["clock (SimClock, global and monotone over the whole history; can deliver an interrupt at a reading)", "valueof failures (FaultyValueOf: 4 exception kinds)",
-                  "solver verdict / exceptions (SimSolver at mip.Model.optimize) and solution read-back noise (mip.Var.x)", "generator consumer (abandon / close / throw)",
+                  "solver verdict / exceptions (SimSolver at mip.Model.optimize) and solution read-back noise (mip.Var.x)", "generator consumer (abandon / close / throw)", "asynchronous interrupt at an arbitrary executed line of the library (AsyncInterrupt: sys.settrace)",
                   "the caller (order of calls, edits of its containers and of returned objects, retries)", "logging level of the prtpy.* loggers (LogSeam)",
                   "process state: one fork per history, one fresh fork per reference call"],
     "stubbed": ["CBC is not run at all in solver mode 'stub_status' / 'raise'"],
@@ -239,7 +240,7 @@ def _gen_call(r, pool, cfg, p_fault, focus=None):
         return op
     # faults
     if r.random() < p_fault:
-        kinds = ["valueof"]
+        kinds = ["valueof", "valueof", "async"]
         if op.get("algo") in ("cg", "cbldm"):
             kinds += ["clock", "clock", "clock"]
         if op.get("algo") == "ilp":
@@ -252,6 +253,10 @@ def _gen_call(r, pool, cfg, p_fault, focus=None):
             frac = {"any": round(r.random(), 4), "late": round(0.9 + 0.0999 * r.random(), 4), "last": 0.99999, "first": 0.0}[where]
             op["fault"] = {"kind": "valueof", "frac": frac,
                            "exc": r.choices(["InjectedFault", "KeyError", "MemoryError", "KeyboardInterrupt"], weights=[45, 15, 10, 30])[0]}
+        elif kind == "async":
+            # the user's interrupt arrives at an arbitrary executed line of the library (fraction of the lines a
+            # fault-free run of this call executes)
+            op["fault"] = {"kind": "async", "frac": round(r.random(), 4)}
         elif kind == "clock" and r.random() < 0.35:
             # the user interrupts (SIGINT) the search while it is at its c-th clock reading
             op["fault"] = {"kind": "interrupt", "at": r.choice([1, 1, 2, 3, 5, 8, 13, 21, 40])}
@@ -397,6 +402,7 @@ class _Env:
         _solver.install()
         _log.configure(plan.get("log"))
         _opbudget.install()
+        self._algo("greedy")          # every module of the registry is imported now, not inside a (traced) call
         self.clock = SimClock({"kind": "uniform", "t0": 0.0, "tick": 1.0}, max_reads=400000)
         _clock_seam.use(self.clock)
         self.pool = {}
@@ -543,46 +549,58 @@ class _Env:
         reads0 = self.clock.reads
         _solver.use({"mode": "real"})
         _opbudget.start(self.plan.get("b_max", 250000))
+        tracer = None
+        if fault.get("kind") == "async":
+            import os
+            import prtpy as _p
+            tracer = AsyncInterrupt(os.path.dirname(os.path.abspath(_p.__file__)), fire_at=None if measure else k_valueof)
+        # everything the CALLER does to prepare the call happens before the (possibly traced) call itself: looking up the
+        # algorithm, creating or fetching its own objective object and bins-manager, building the option values
+        kw = {}
+        okw = op.get("kwargs", {})
+        algo = otype = owned = names = None
+        if op["fn"] != "generator":
+            if "objective" in okw:
+                kw["objective"] = self._objective(okw["objective"])
+            if "switches" in okw:
+                lb, flb, h3, seen = okw["switches"]
+                kw.update(use_lower_bound=lb, use_fast_lower_bound=flb, use_heuristic_3=h3, use_set_of_seen_states=seen)
+            for key in ("partition_difference", "iterations", "time_limit", "copies", "weights"):
+                if key in okw:
+                    kw[key] = list(okw[key]) if isinstance(okw[key], list) else okw[key]
+                    if isinstance(okw[key], list):
+                        owned_kw.append((key, kw[key], list(okw[key])))
+            if "constraint" in okw:
+                con = okw["constraint"]
+                kw["additional_constraints"] = {
+                    "mineq": (lambda sums, c=con["c"]: [sums[0] == c]),
+                    "maxle": (lambda sums, c=con["c"]: [sums[-1] <= c]),
+                    "minge": (lambda sums, c=con["c"]: [sums[0] >= c])}[con["kind"]]
+            if fault.get("kind") == "clock":
+                kw["time_limit"] = fault["cut"] - 0.5
+            algo = self._algo(op["algo"])
+            if op.get("direct"):
+                if isinstance(items, dict):
+                    names, vo = items.keys(), (valueof if valueof is not None else items.__getitem__)
+                else:
+                    names, vo = items, (valueof if valueof is not None else (lambda item: item))
+                owned = self._owned_binner(cid, op["direct"], vo, fault.get("kind") == "valueof")
+            else:
+                otype = getattr(out, op["out"])
         try:
+          with (tracer if tracer is not None else _NoTrace()):
             if op["fn"] == "generator":
                 outcome = self._generator(op, items, valueof)
             else:
-                kw = {}
-                okw = op.get("kwargs", {})
-                if "objective" in okw:
-                    kw["objective"] = self._objective(okw["objective"])
-                if "switches" in okw:
-                    lb, flb, h3, seen = okw["switches"]
-                    kw.update(use_lower_bound=lb, use_fast_lower_bound=flb, use_heuristic_3=h3, use_set_of_seen_states=seen)
-                for key in ("partition_difference", "iterations", "time_limit", "copies", "weights"):
-                    if key in okw:
-                        kw[key] = list(okw[key]) if isinstance(okw[key], list) else okw[key]
-                        if isinstance(okw[key], list):
-                            owned_kw.append((key, kw[key], list(okw[key])))
-                if "constraint" in okw:
-                    con = okw["constraint"]
-                    kw["additional_constraints"] = {
-                        "mineq": (lambda sums, c=con["c"]: [sums[0] == c]),
-                        "maxle": (lambda sums, c=con["c"]: [sums[-1] <= c]),
-                        "minge": (lambda sums, c=con["c"]: [sums[0] >= c])}[con["kind"]]
-                if fault.get("kind") == "clock":
-                    kw["time_limit"] = fault["cut"] - 0.5
                 if fault.get("kind") == "interrupt":
                     self.clock.interrupt_at = self.clock.reads + fault["at"] - 1
                 if fault.get("kind") == "solver":
                     _solver.use({k: v for k, v in fault.items() if k != "kind"})
-                algo = self._algo(op["algo"])
                 if op.get("direct"):
-                    if isinstance(items, dict):
-                        names, vo = items.keys(), (valueof if valueof is not None else items.__getitem__)
-                    else:
-                        names, vo = items, (valueof if valueof is not None else (lambda item: item))
-                    val = algo(self._owned_binner(cid, op["direct"], vo, fault.get("kind") == "valueof"), op["param"], names, **kw)
+                    val = algo(owned, op["param"], names, **kw)
                 elif op["fn"] == "partition":
-                    otype = getattr(out, op["out"])
                     val = prtpy.partition(algorithm=algo, numbins=op["param"], items=items, valueof=valueof, outputtype=otype, **kw)
                 else:
-                    otype = getattr(out, op["out"])
                     val = prtpy.pack(algorithm=algo, binsize=op["param"], items=items, valueof=valueof, outputtype=otype, **kw)
                 outcome = {"value": canon(val)}
                 if idx is not None:
@@ -606,6 +624,8 @@ class _Env:
         rec["valueof_fired"] = fv.fired if fv is not None else 0
         rec["clock_reads"] = self.clock.reads - reads0
         rec["binner_ops"] = _opbudget.ops
+        rec["line_events"] = tracer.count if tracer is not None else None
+        rec["async_fired"] = tracer.fired if tracer is not None else 0
         rec["solver_fired"] = dict(_solver.fired)
         _solver.fired = {}
         return rec
@@ -661,6 +681,14 @@ class _Env:
             sums = [float(x) for x in plain(val)]
         objective = op.get("kwargs", {}).get("objective", "diff")
         return {"objective_value": canon(refmodels.objective_value(objective, sums)), "nbins": len(sums), "total": canon(sum(sums))}
+
+
+class _NoTrace:
+    def __enter__(self):
+        return self
+
+    def __exit__(self, *exc):
+        return False
 
 
 def _scribble(obj, how, depth=0):
@@ -829,7 +857,7 @@ def execute(plan, seed=0):
     for i in sorted(base_idx):
         j = base_idx[i]
         f = ops[j].get("fault") or {}
-        if f.get("kind") != "valueof":
+        if f.get("kind") not in ("valueof", "async"):
             continue
         key = (j, epoch[i])
         if key not in measured:
@@ -841,10 +869,10 @@ def execute(plan, seed=0):
                     tr.add("discard", why="step budget in measuring run", op=i)
                     return res.finish(tr)
                 raise
-            K = m["valueof_calls"] or 0
+            K = (m["valueof_calls"] if f["kind"] == "valueof" else m.get("line_events")) or 0
             measured[key] = (1 + int(f["frac"] * K)) if K > 0 else 1
             if K == 0:
-                res.probe("valueof_fault_on_call_that_never_evaluates")
+                res.probe("valueof_fault_on_call_that_never_evaluates" if f["kind"] == "valueof" else "async_interrupt_on_call_that_executes_no_library_line")
         kmap[str(i)] = measured[key]
 
     # 2. the history, in one interpreter
@@ -921,6 +949,8 @@ def execute(plan, seed=0):
             res.fault("valueof_raised_" + f.get("exc", "InjectedFault"))
         if rec.get("interrupt_fired"):
             res.fault("interrupt_at_clock_reading")
+        if rec.get("async_fired"):
+            res.fault("interrupt_at_arbitrary_executed_line")
         if f.get("kind") == "clock" and "exception" in rec["outcome"]:
             res.fault("clock_cut_before_first_solution")
         elif f.get("kind") == "clock":
@@ -949,7 +979,16 @@ def execute(plan, seed=0):
         ref = refs[rkey]
         mine, fresh = _comparable(op, rec["outcome"]), _comparable(op, ref["outcome"])
         verdict = "same"
-        if mine != fresh:
+        async_op = f.get("kind") == "async"
+        if async_op:
+            # WHERE an interrupt at the n-th executed line lands depends on how many lines the call executes, and a
+            # correct cache that is warm in the history and cold in a fresh interpreter changes that number: the
+            # interrupted call itself is a disturbance, not a judged operation. Its inputs must be untouched (above) and
+            # every LATER call is judged as usual.
+            verdict = "not-compared"
+            if mine != fresh:
+                res.probe("async_interrupt_landed_elsewhere_than_in_fresh_state")
+        elif mine != fresh:
             try:
                 ref2 = reference(i)
             except _OverBudget:
@@ -971,6 +1010,8 @@ def execute(plan, seed=0):
                 res.probe("repeat_after_ge10_intervening_calls")
             if epoch[i] != epoch[j]:
                 res.probe("repeat_after_caller_edit_not_compared_with_original")
+            elif async_op:
+                pass
             elif first is not None and _comparable(op, first["outcome"]) != mine:
                 res.violate("repeat-differs", step=i, of=j, op=op, first=_short(_comparable(op, first["outcome"])), again=_short(mine))
         # probes
